@@ -35,9 +35,10 @@ theorem assignop_agrees_Full_false : ¬ assignop_agrees_Full := by
   have := h Int toyF .add (.int 1) (.real 0) (Or.inl rfl) (by unfold VI64 I64; omega) (by simp [ShiftOk])
   exact witness_num_opeq_real toyF 0 this
 
-/-- finding buf-store-zero: a zero byte cannot be stored through a buffer element lvalue -/
+/-- finding buf-store-zero (REPAIRED in the repository; `bufStoreZero := true` is the code before the repair): a zero
+    byte could not be stored through a buffer element lvalue -/
 theorem witness_buf_store_zero (F : FloatOps R) :
-    LpcOps.lvSet F Quirks.real false (.buf [65]) (.int 0) (.int 0) = .err ∧
+    LpcOps.lvSet F { Quirks.real with bufStoreZero := true } false (.buf [65]) (.int 0) (.int 0) = .err ∧
     Spec.lvSet F false (.buf [65]) (.int 0) (.int 0) = .ok (.buf [0]) := by
   constructor
   · simp [LpcOps.lvSet, Quirks.real, Spec.lowByte]
@@ -56,10 +57,11 @@ theorem witness_optimistic_rewrite (F : FloatOps R) :
       = .un .not (.bin .add (.loc 0) (.lit (.int 1))) := by
   simp [Frontend.rwBin, Frontend.typeOf, Frontend.arithTy, Frontend.numTy, Frontend.isZeroLit, Frontend.isLit, Quirks.real]
 
-/-- finding rev-range-wrap: `a[<INT64_MIN..]` on a one-element array returns the whole array (`size - i` wraps),
-    the reference result is empty -/
+/-- finding rev-range-wrap (REPAIRED in the repository; `revRangeWrap := true` is the code before the repair):
+    `a[<INT64_MIN..]` on a one-element array returned the whole array (`size - i` wraps), the reference result is empty -/
 theorem witness_rev_range_wrap :
-    LpcOps.extract (R := R) Quirks.real true true (.arr [.int 10]) (.int (-(2 ^ 63))) = .ok (.arr [.int 10]) := by
-  simp [LpcOps.extract, LpcOps.sliceArray, Quirks.real, wrap, wrap32]
+    LpcOps.extract (R := R) { Quirks.real with revRangeWrap := true } true true (.arr [.int 10]) (.int (-(2 ^ 63)))
+      = .ok (.arr [.int 10]) := by
+  simp [LpcOps.extract, LpcOps.extractWith, LpcOps.revSub, LpcOps.sliceArray, Quirks.real, wrap, wrap32]
 
 end NV.C03
